@@ -283,13 +283,30 @@ def zoom_rule(ctx, p, K):
     ctx.ob(rule, m.key + ":geometry", kwv == {"shape_native": "extracted_array_2d.shape", "pixel_scales": "self.pixel_scales", "origin": "self.mask.mask_centre"}, where=m, node=mk[0] if mk else m.node, construct=str(kwv), message="the zoomed array keeps the pixel scales and is centred on the mask centre")
     # zoom region: bounding box of the unmasked pixels, only ever widened
     z = p.cls("autoarray.mask.mask_2d:Mask2D").lookup("zoom_region")
-    txt = {norm_text(n.targets[0]): norm_text(n.value) for n in z.body_nodes() if isinstance(n, ast.Assign)}
-    ok = txt.get("where", "").replace('"', "'") in ("np.array(np.where(np.invert(self.astype('bool'))))", "np.array(np.where(np.invert(self.astype(dtype='bool'))))") and txt.get("(y0, x0)") == "np.amin(where, axis=1)" and txt.get("(y1, x1)") == "np.amax(where, axis=1)"
-    aug = [(norm_text(n.target), type(n.op).__name__, norm_text(n.value)) for n in z.body_nodes() if isinstance(n, ast.AugAssign)]
-    widen = all((t in ("y1", "x1") and o == "Add") or (t in ("y0", "x0") and o == "Sub") for t, o, v in aug)
+    # decided on every path's returned value with the locals substituted (sa/paths.py) and compared as canonical forms: [lo_y, hi_y, lo_x, hi_x] with
+    # lo_k = min_k - (a non-negative whole number), hi_k = max_k + 1 + (a non-negative whole number), min / max over the unmasked pixels of axis k
+    from .. import paths
+    from ..forms import expr_poly, src_poly
+    from ..poly import Poly as _Poly
+    PS = paths.returns(paths.path_summaries(z, project=p) or [])
+    WH = "np.array(np.where(np.invert(self.astype(dtype='bool'))))"
+    base = {(fn, k): src_poly(f"{m}.{fn}({WH}, axis=1)[{k}]") for fn in ("amin", "amax") for k in (0, 1) for m in ("np",)}
+    ok = bool(PS)
+    aug = []
+    for q in PS:
+        v = q.value
+        if not (isinstance(v, (ast.List, ast.Tuple)) and len(v.elts) == 4):
+            ok = False
+            continue
+        for pos, (fn, k, plus) in enumerate((("amin", 0, 0), ("amax", 0, 1), ("amin", 1, 0), ("amax", 1, 1))):
+            d = expr_poly(v.elts[pos]) - base[(fn, k)] - _Poly.const(plus)
+            # d must be 0 or a floor-division / int(...) term of the right sign: a bound is only ever moved outwards
+            terms = list(d.t.items())
+            good = all(len(mono) == 1 and mono[0][1] == 1 and mono[0][0][0] == "f" and mono[0][0][1] in ("fdiv", "int") and ((coef < 0) if fn == "amin" else (coef > 0)) for mono, coef in terms)
+            aug.append((pos, repr(d)[:60]))
+            ok = ok and good
     rets = wire.returns_of(z)
-    ok = ok and widen and len(rets) == 1 and norm_text(rets[0].value) == canon_src("[y0, y1 + 1, x0, x1 + 1]")
-    ctx.ob(rule, z.key, ok, where=z, node=z.node, construct=f"{aug}; returns {norm_text(rets[0].value) if rets else None}", message="the zoom region must be [min row, max row + 1, min column, max column + 1] of the unmasked pixels, lower bounds only decreased and upper bounds only increased (every unmasked pixel inside)")
+    ctx.ob(rule, z.key, ok, where=z, node=z.node, construct=f"{[a_ for a_ in aug if a_[1] != '0'][:4]}; {len(PS)} returning path(s)", message="the zoom region must be [min row, max row + 1, min column, max column + 1] of the unmasked pixels, lower bounds only decreased and upper bounds only increased (every unmasked pixel inside)")
 
 
 def run(ctx):
